@@ -97,6 +97,10 @@ def str_literal(s, how):
     return json.dumps(s)
   if how == "fstr":
     return "f" + plain.replace("{", "{{").replace("}", "}}")
+  if how == "strcont":
+    # an ordinary quoted literal whose SOURCE spans two lines (backslash-newline right after the opening
+    # quote): the value is unchanged, and has no newline unless s has one
+    return plain[0] + "\\\n" + plain[1:]
   if how in ("triple", "ftriple"):
     # the raw text between triple quotes (real newlines); only for texts that survive unescaped
     if "\\" in s or '"""' in s or s.endswith('"') or "\r" in s:
@@ -164,11 +168,11 @@ def spell(tree, sp):
     st = Style(dollar=False, full=True, strs="dq")
   elif sp == "fstr":
     st = Style(strs="fstr", fmt="fstr")
-  elif sp in ("triple", "ftriple"):
+  elif sp in ("triple", "ftriple", "strcont"):
     st = Style(strs=sp)
   assigns = ["%s = %s" % (nm, render(e, st)) for nm, e in lets]
   fin = render(last, st)
-  if sp in ("dollar", "rec", "fstr", "triple", "ftriple"):
+  if sp in ("dollar", "rec", "fstr", "triple", "ftriple", "strcont"):
     return "\n".join(assigns + [fin])
   if sp == "return":
     return "\n".join(assigns + ["return " + fin])
@@ -505,7 +509,7 @@ def random_items(seed_value, n):
       tree = ["Let", "y", random_tree(rnd, d - 1, []), random_tree(rnd, d, ["y"])]
     else:
       tree = random_tree(rnd, d, [])
-    sps = ["dollar", "rec", "return", "comment", "indent", "crlf", "multiline", "fstr", "triple", "ftriple"]
+    sps = ["dollar", "rec", "return", "comment", "indent", "crlf", "multiline", "fstr", "triple", "ftriple", "strcont"]
     last = tree[3] if tree[0] == "Let" else tree
     if last[0] == "Cond":
       sps += list(BLOCKS)
